@@ -191,6 +191,18 @@ def gen_foreign(rng):
         tag = 'main_encoding_omitted'
     else:
         doc = recipe.gen_doc(rng, max_changes=3, max_files=3, enc_p=0.3)
+    if rng.random() < 0.04:
+        # a JSON number beyond the range of a double
+        for kind, sec, inh in recipe.iter_content(doc):
+            if kind == 'meta' and rng.random() < 0.5:
+                sec['obj'] = dict(sec['obj'],
+                                  huge=rng.choice([float('inf'),
+                                                   float('-inf')]))
+                tag = tag + '+number_beyond_double'
+                break
+    unpadded = rng.random() < 0.1
+    if unpadded:
+        recipe.blank_lines_style(doc, rng)
     recipe.annotate_droppable(doc)
     st = Style(rng=rng, shuffle=rng.random() < 0.7,
                blank=rng.choice([0, 0, 1, 3]),
@@ -199,7 +211,8 @@ def gen_foreign(rng):
                                 'indent'], rng.randint(0, 4)),
                json_style=rng.choice(JSON_STYLES),
                trailing_blank=rng.choice([0, 0, 2]),
-               meta_line_endings=rng.random() < 0.2)
+               meta_line_endings=rng.random() < 0.2,
+               unpadded_blank=unpadded)
     data, layout = serialize(doc, st)
     return doc, st, data, layout, tag
 
